@@ -64,6 +64,36 @@ def run_real(case):
         return "err", err_enum(e)
 
 
+def run_real_system(case):
+    """the same conversion as the model performs it for a usage pattern: `UsagePattern.update_utc_hourly_usage_journey_starts`
+    inside a computed system (a country in the zone, the series as hourly_usage_journey_starts)"""
+    from efootprint.core.system import System
+    from efootprint.core.usage.usage_pattern import UsagePattern
+    from efootprint.core.usage.usage_journey import UsageJourney
+    from efootprint.core.usage.usage_journey_step import UsageJourneyStep
+    from efootprint.core.usage.job import Job
+    from efootprint.core.hardware.server import Server
+    from efootprint.core.hardware.storage import Storage
+    from efootprint.core.hardware.network import Network
+    from efootprint.core.hardware.device import Device
+    from efootprint.core.country import Country
+    from efootprint.abstract_modeling_classes.source_objects import SourceValue
+    try:
+        with watchdog(60):
+            idx = pd.date_range(start=datetime.utcfromtimestamp(case["start"]), periods=len(case["vs"]), freq="h")
+            df = pd.DataFrame({"value": pint_pandas.PintArray(np.array(case["vs"], dtype=float), dtype=u.dimensionless)}, index=idx)
+            starts = ExplainableHourlyQuantities(df, "local starts")
+            sv = Server.from_defaults("sv", storage=Storage.from_defaults("st"))
+            job = Job.from_defaults("job", server=sv)
+            uj = UsageJourney("uj", uj_steps=[UsageJourneyStep("step", user_time_spent=SourceValue(1 * u.min), jobs=[job])])
+            co = Country("co", "COU", SourceValue(100 * u.g / u.kWh), SourceObject(pytz.timezone(case["zone"])))
+            up = UsagePattern("up", uj, [Device.from_defaults("dev")], Network.from_defaults("net"), co, starts)
+            System("sys", usage_patterns=[up])
+            return "ok", canon(up.utc_hourly_usage_journey_starts)
+    except Exception as e:  # noqa
+        return "err", err_enum(e)
+
+
 def lean_request(case):
     lo, hi = case["start"], case["start"] + 3600 * len(case["vs"])
     return {"cmd": "tz", "zone": leanio.zone_json(case["zone"], lo - 86400 * 3, hi + 86400 * 3),
@@ -108,6 +138,19 @@ def run_shard(args):
     out = {"cases": len(cases), "disagreements": [], "violations": [], "zones": set(), "samples": [], "merged": 0}
     reals = [run_real(c) for c in cases]
     answers = run_lean([lean_request(c) for c in cases])
+    out["system_path"] = 0
+    for k, c in enumerate(cases):
+        if k % 3 == 0 and all(v >= 0 for v in c["vs"]) and any(v > 0 for v in c["vs"]):
+            st2, r2 = run_real_system(c)
+            out["system_path"] += 1
+            st1, r1 = reals[k]
+            if st1 == "ok" and (st2 != "ok" or r2["ks"] != r1["ks"] or any(abs(a - b) > 1e-9 * max(1.0, abs(b)) for a, b in zip(r2["vs"], r1["vs"]))):
+                why = f"raises {r2}" if st2 != "ok" else f"keys/values {r2['ks'][:4]}…/{r2['vs'][:4]}… vs direct conversion {r1['ks'][:4]}…/{r1['vs'][:4]}…"
+                out["violations"].append({"signature": "C11:usage-pattern-conversion-differs-from-convert_to_utc",
+                                          "detail": f"{c['zone']} start {c['start']}: the usage pattern's UTC starts: {why}", "replay": {"case": c}})
+                verdict = oracle(c, st2, r2) if st2 == "ok" else None
+                if verdict:
+                    out["violations"].append({"signature": "C11:usage-pattern:" + verdict, "detail": f"{c['zone']} start {c['start']}: {verdict}", "replay": {"case": c}})
     for c, (st, r), ans in zip(cases, reals, answers):
         out["zones"].add(c["zone"])
         if st == "ok" and len(r["ks"]) < len(c["vs"]):
